@@ -28,6 +28,10 @@ pub struct Sc {
     /// (is -execdir, its single template argument); it runs iff the first was true
     #[serde(default)]
     pub second: Option<(bool, String)>,
+    /// `-mindepth 1` (used when the starting point is spelled `DIR/..`, whose own basename is
+    /// `..`: only the entries below it are acted on)
+    #[serde(default)]
+    pub mindepth1: bool,
 }
 
 const CMD2: &str = "CMD2";
@@ -43,6 +47,10 @@ impl Sc {
         }
         if self.depth {
             a.push("-depth".into());
+        }
+        if self.mindepth1 {
+            a.push("-mindepth".into());
+            a.push("1".into());
         }
         a.extend(self.tests.iter().cloned());
         a.push("-print0".into());
@@ -203,6 +211,16 @@ impl Property for C09 {
                 }
             }
         }
+        // a starting point spelled through `..` (its entries' parent then has no final name
+        // component): DIR/.. names DIR's parent
+        let mut mindepth1 = false;
+        if !mutate && rng.chance(1, 8) {
+            let dirs: Vec<String> = dirs_of(&spec).into_iter().filter(|d| d.contains('/') && !d.contains(crate::tree::RAW_SENTINEL)).collect();
+            if !dirs.is_empty() {
+                starts = vec![format!("{}/..", rng.pick(&dirs))];
+                mindepth1 = true;
+            }
+        }
         let ntempl = rng.small(0, 4);
         let mut templates: Vec<String> = (0..ntempl).map(|_| gen_template(rng)).collect();
         if rng.chance(1, 6) {
@@ -267,6 +285,7 @@ impl Property for C09 {
             execdir: rng.chance(2, 5),
             templates,
             after,
+            mindepth1,
             second: if rng.chance(1, 4) { Some((rng.chance(1, 2), rng.pick(&["{}", "{}", "x{}y", "{}{}"]).to_string())) } else { None },
         };
         sc.render();
@@ -296,7 +315,7 @@ impl Property for C09 {
         if mutated || sc.tests.is_empty() {
             let wcfg = WalkCfg {
                 follow: FollowMode::P,
-                mindepth: 0,
+                mindepth: usize::from(sc.mindepth1),
                 maxdepth: usize::MAX,
                 depth_first: sc.depth,
                 sorted: true,
@@ -322,6 +341,9 @@ impl Property for C09 {
         }
         if sc.templates.iter().all(|t| !t.contains("{}")) {
             rep.probe("no_placeholder_at_all");
+        }
+        if sc.mindepth1 {
+            rep.probe("starting_point_spelled_through_dot_dot");
         }
         if let Some((dir2, _)) = &sc.second {
             rep.probe(if *dir2 != sc.execdir { "second_action_of_the_other_flavour" } else { "second_action_of_the_same_flavour" });
